@@ -174,6 +174,11 @@ def r2_break_suppression(w):
     if len(cm) != 1:
         raise AnchorMissing('convert_markup_impl')
     b = cm[0]
+    # a piece of the per-line loop moved into a single-site helper (`convert_markup_child(ctx, node, mixed)`) is read as the loop body it was
+    import inline
+    nb = inline.inline_body(w, b, lambda cb, t_, d_: kf.extracted_dispatch_helper(w, cb), desugar=False)
+    if nb.inlined:
+        b = nb
     v = BodyView(w, b)
     n = 0
     for bi, t in b.calls():
